@@ -64,6 +64,27 @@ def c07(tier, rng, fam='C07'):
                             b.step('hop', c=10 + o, h=ret(pay='p%d' % o))
                         b.step('ucall', c=99, pay='probe', to=H, hp=[ret(pay='pong')])
                         out.append(b.q().done())
+    # cancellation / deadline while a Send is blocked in the transport's write
+    for kind in ('bidi', 'cs', 'ss'):
+        for form in ('cancel', 'deadline'):
+            for nbefore in (0, 1):
+                b = B(fam, '%s %s while a send is blocked in the transport (after %d sends)' % (kind, form, nbefore), ser=True)
+                b.step('sopen', c=1, kind=kind, hp=[dict(o='ctxwait'), ret(code=1, msg='gone')],
+                       **({'to': 1000} if form == 'deadline' else {}))
+                if nbefore and kind != 'ss':
+                    b.step('send', c=1, pay='first')
+                b.step('stuck', dir='c2s', on=True)
+                b.step('send', c=1, pay='blocked')
+                if form == 'cancel':
+                    b.step('cancel', c=1)
+                else:
+                    b.step('adv', ms=1001)
+                b.step('stuck', dir='c2s', on=False)
+                b.q()
+                b.step('recv', c=1)
+                b.step('send', c=1, pay='late')
+                b.step('ucall', c=99, pay='probe', to=H, hp=[ret(pay='pong')])
+                out.append(b.q().done())
     # cancellation while responses are queued unread
     for kind in ('bidi', 'ss'):
         for m in (range(0, 3) if tier == 'quick' else range(0, 6)):
